@@ -220,6 +220,35 @@ def main(run, tier):
                     run.failed('rt.sourcemap.synthetic', 'E4/bounded', 'normalize=%s | %r' % (normalize, frags),
                                dict(fragments=repr(frags), normalize=normalize, problem=why), observed=why,
                                required='decoded map = positions the fragments carried', replayed=True)
+    # the documented multi-call form: one write() per input, sharing book / sources / names / mappings (normalisation off)
+    for first, second in (([('a', 1, 1, 'first', 'one.js'), (' ', None, None, None, None), ('b', 1, 3, 'second', 'one.js'), ('\n', 0, 0, None, None)],
+                           [('a', 1, 1, 'value', 'two.js'), ('c', 1, 2, None, 'two.js')]),
+                          ([('x', 2, 4, None, 'one.js')], [('y', 1, 1, 'orig', 'two.js'), ('z', 1, 2, 'other', 'one.js')])):
+        n += 1
+        out = io.StringIO()
+        book, srcs, nms, maps = sm.default_book(), sm.Names(), sm.Names(), None
+        r1 = sm.write(iter(first), out, normalize=False, book=book, sources=srcs, names=nms)
+        r2 = sm.write(iter(second), out, normalize=False, book=book, sources=srcs, names=nms, mappings=r1[0])
+        smap = sm.encode_sourcemap('out.js', r2[0], r2[1], r2[2])
+        dec = v3.decode_mappings_v3(smap['mappings'])
+        want = []
+        cur_src = None
+        for f in first + second:
+            if f[1] is None or f[2] is None:
+                continue                          # unmapped
+            cur_src = f[4] or cur_src             # no source given: the source in effect
+            want.append((f[3], cur_src))
+        got = []
+        for segs in dec:
+            for sg in segs:
+                if len(sg) > 1:
+                    nm = smap['names'][sg[4]] if len(sg) > 4 and sg[4] is not None and 0 <= sg[4] < len(smap['names']) else None
+                    src_ = smap['sources'][sg[1]] if 0 <= sg[1] < len(smap['sources']) else '<out of range>'
+                    got.append((nm, src_))
+        if got != want:
+            why = 'two write() calls sharing book/sources/names: decoded (name, source) per positioned fragment %r, expected %r' % (got, want)
+            run.failed('rt.sourcemap.multicall', 'E4/bounded', repr(first[:1] + second[:1]), dict(first=repr(first), second=repr(second), problem=why),
+                       observed=why, required='every positioned fragment maps to its own source file and original name', replayed=True)
     run.bounded_check('rt.sourcemap.synthetic', 'all well-formed streams of <= %d fragments over a 25-fragment alphabet + '
                       'random longer streams (seeded) x normalize off/on' % (2 if tier == 'quick' else 3), n)
     # ---- bounded: streams of the real printers, one and two source files
